@@ -939,6 +939,9 @@ func SexpToGoStructs(
 		var checkPtrStruct interface{}
 		if calldepth == 0 {
 			checkPtrStruct = top
+			if reflect.TypeOf(top) != factory.TypeCache {
+				panic(fmt.Errorf("record of type '%s' cannot be converted into a %T", tn, top))
+			}
 		} else {
 			checkPtrStruct, err = factory.Factory(env, src)
 			if err != nil {
